@@ -238,7 +238,8 @@ func GetAttr(v Value, attr Value, args ...Value) (Value, error) {
 	case reflect.Struct:
 		strval := CoerceString(attr)
 		retval = r.FieldByName(strval)
-		if !retval.IsValid() {
+		if !retval.IsValid() || !retval.CanInterface() {
+			// No such field, or an unexported one (which cannot be read).
 			var err error
 			retval, err = getMethod(v, strval)
 			if err != nil {
@@ -246,7 +247,10 @@ func GetAttr(v Value, attr Value, args ...Value) (Value, error) {
 			}
 		}
 	case reflect.Map:
-		retval = r.MapIndex(reflect.ValueOf(attr))
+		// An unhashable value (a slice, say) can never be a key.
+		if key, ok := convertValue(attr, r.Type().Key()); ok && key.Type().Comparable() {
+			retval = r.MapIndex(key)
+		}
 	case reflect.Slice, reflect.Array:
 		index := int(CoerceNumber(attr))
 		if index >= 0 && index < r.Len() {
@@ -261,12 +265,25 @@ func GetAttr(v Value, attr Value, args ...Value) (Value, error) {
 		if t.NumOut() > 1 {
 			return nil, fmt.Errorf("getattr: multiple return values unsupported, called method \"%s\" on \"%v\"", attr, v)
 		}
-		rargs := make([]reflect.Value, len(args))
-		for k, v := range args {
-			rargs[k] = reflect.ValueOf(v)
+		if retval.IsNil() {
+			return nil, fmt.Errorf("getattr: \"%s\" on \"%v\" is a nil func", attr, v)
 		}
-		if t.NumIn() != len(rargs) {
-			return nil, fmt.Errorf("getattr: method \"%s\" on \"%v\" expects %d parameter(s), %d given", attr, v, t.NumIn(), len(rargs))
+		if t.NumIn() != len(args) && !(t.IsVariadic() && len(args) >= t.NumIn()-1) {
+			return nil, fmt.Errorf("getattr: method \"%s\" on \"%v\" expects %d parameter(s), %d given", attr, v, t.NumIn(), len(args))
+		}
+		rargs := make([]reflect.Value, len(args))
+		for k, arg := range args {
+			pt := t.In(t.NumIn() - 1)
+			if k < t.NumIn()-1 || !t.IsVariadic() {
+				pt = t.In(k)
+			} else {
+				pt = pt.Elem()
+			}
+			rarg, ok := convertValue(arg, pt)
+			if !ok {
+				return nil, fmt.Errorf("getattr: method \"%s\" on \"%v\" cannot use \"%v\" as parameter %d", attr, v, arg, k+1)
+			}
+			rargs[k] = rarg
 		}
 		res := retval.Call(rargs)
 		if len(res) == 0 {
@@ -275,6 +292,45 @@ func GetAttr(v Value, attr Value, args ...Value) (Value, error) {
 		retval = res[0]
 	}
 	return retval.Interface(), nil
+}
+
+// convertValue returns val as a reflect.Value usable where a value of type t
+// is required (a map key or a method parameter). Numbers are converted between
+// numeric types when that loses nothing, and anything can be used as a string
+// through CoerceString. The second result is false if val cannot be used.
+func convertValue(val Value, t reflect.Type) (reflect.Value, bool) {
+	rv := reflect.ValueOf(val)
+	if !rv.IsValid() {
+		switch t.Kind() {
+		case reflect.Interface, reflect.Ptr, reflect.Map, reflect.Slice, reflect.Func, reflect.Chan:
+			return reflect.Zero(t), true
+		}
+		return rv, false
+	}
+	if rv.Type().AssignableTo(t) {
+		return rv, true
+	}
+	switch t.Kind() {
+	case reflect.String:
+		switch rv.Kind() {
+		case reflect.Slice, reflect.Array, reflect.Map, reflect.Struct, reflect.Ptr, reflect.Func, reflect.Chan:
+			return rv, false
+		}
+		return reflect.ValueOf(CoerceString(val)).Convert(t), true
+	case reflect.Int, reflect.Int8, reflect.Int16, reflect.Int32, reflect.Int64,
+		reflect.Uint, reflect.Uint8, reflect.Uint16, reflect.Uint32, reflect.Uint64,
+		reflect.Float32, reflect.Float64:
+		switch rv.Kind() {
+		case reflect.Int, reflect.Int8, reflect.Int16, reflect.Int32, reflect.Int64,
+			reflect.Uint, reflect.Uint8, reflect.Uint16, reflect.Uint32, reflect.Uint64,
+			reflect.Float32, reflect.Float64:
+			conv := rv.Convert(t)
+			if CoerceNumber(conv.Interface()) == CoerceNumber(val) {
+				return conv, true
+			}
+		}
+	}
+	return rv, false
 }
 
 func getMethod(v Value, name string) (reflect.Value, error) {
